@@ -103,3 +103,5 @@ a8 = ak.Array(L.ListOffsetArray64(I64(100, 100), L.NumpyArray(np.array([1, 2, 3]
 show('buffers-empty-lists-offsets-beyond-content', ak.to_list(a8), lambda: rt(a8))
 a8b = ak.Array(L.RecordArray([L.ByteMaskedArray(I8(1, 0, 1), L.NumpyArray(np.array([7, 8, 9])), False)], ['x'], 3))
 show('to_numpy-record-drops-field-masks', ak.to_list(a8b), lambda: ak.to_numpy(a8b).tolist())
+a8c = ak.Array(L.ListOffsetArray64(I64(0), L.UnmaskedArray(L.EmptyArray())))
+show('arrow-null-type-nested-option', 'is_valid True', lambda: 'is_valid %s (UnmaskedArray over IndexedOptionArray over EmptyArray)' % ak.is_valid(ak.from_arrow(ak.to_arrow(a8c))))
